@@ -21,7 +21,7 @@ from checks import c07_constraints as c07
 PID = 'C08'
 LEVEL = 'exploration'
 RULE = ('6 supervised learners x parameters (n_constraints in {None,10,40}; n_chunks x chunk_size; k_genuine x k_impostor x basis; '
-        'prior incl. random) x seeds {0,1,2} x label layouts {no unknown, unknown first / middle / last, two unknown, '
+        'prior incl. random and an SPD array) x seeds {0,1,2} x label layouts {no unknown, unknown first / middle / last, two unknown, '
         'unbalanced, renamed non-contiguous classes without / with an unknown, two same-class points at the same position} x datasets; signature = (learner, parameters, layout, dataset, '
         '#constraints consumed); non-trivial = at least one constraint consumed')
 ASSUMPTIONS = ['The default n_constraints (None) is compared only on layouts without unknown labels (the documented '
@@ -68,6 +68,7 @@ def param_sets(name, ds, tier):
         key = 'init' if name.startswith('MMC') else 'prior'
         ps.append({'n_constraints': 20, key: 'random'})
         ps.append({'n_constraints': 20, key: 'covariance'})
+        ps.append({'n_constraints': 20, key: data.spd(d)})        # the SAME array object reaches the supervised and the base fit
         if name == 'LSML_Supervised':
             ps.append({'n_constraints': 12, 'weights': np.arange(1.0, 13.0)})
         return ps
